@@ -12,6 +12,11 @@
 (* FixF1/FixF2/FixG1 = TRUE model the code as it is now (after the `fix:`    *)
 (* commits); FALSE model the pinned code, in which TLC finds the data-loss   *)
 (* histories F1, F2, G1 within seconds (kept as negative controls).          *)
+(* ReqCtx = TRUE lets the context of a litestream call be cancelled once the *)
+(* call has returned (request handlers do that); FixQ1 = FALSE is the code   *)
+(* in which the long-running read transaction was bound to that context     *)
+(* (finding Q1, found by the daemon-mode runs; MC_Core_q1.cfg is its        *)
+(* negative control).                                                       *)
 (* AtomicChk = TRUE disables application steps inside a litestream           *)
 (* checkpoint (used to generate schedules that need no gating hooks).        *)
 (* hz is a history variable naming the shapes of known findings; the as-is   *)
@@ -20,7 +25,8 @@
 (***************************************************************************)
 EXTENDS Integers, Sequences, FiniteSets, TLC
 
-CONSTANTS MaxPg, InitN, MaxVer, MaxFrames, MaxTx, MaxGen, MaxDown, FixF1, FixF2, FixG1, Modes, AppModes, AtomicChk, WithCrash
+CONSTANTS MaxPg, InitN, MaxVer, MaxFrames, MaxTx, MaxGen, MaxDown, FixF1, FixF2, FixG1, Modes, AppModes, AtomicChk, WithCrash,
+          ReqCtx, FixQ1    \* litestream calls run under a request-scoped context (cancelled when the call returns) / the read transaction is detached from it
 
 Pages == 1..MaxPg
 SeqPg == 1
@@ -389,6 +395,16 @@ LsCrash ==
   /\ UNCHANGED <<dbf, dbfN, wal, hdrGen, idxGen, mx, bf, sz, txn, nextVer, nextGen, nextSt, mem, l0, rN, cmode, ck>>
   /\ UNCHANGED <<cvers, spv>>
 
+\* Q1: the long-running read transaction is begun with the context of the call that happens to (re)acquire it (init at the
+\* first sync, or the re-acquisition after a checkpoint).  When that call came from a request handler (Store.SyncDB from
+\* the control socket: context.WithTimeout + defer cancel) the context is cancelled as soon as the call returns and
+\* database/sql rolls the transaction back: the read mark is gone while the DB object still believes it holds it.
+LsCtxCancelled ==
+  /\ ReqCtx /\ ~FixQ1 /\ up /\ pc = "idle" /\ rd # -1
+  /\ rd' = -1
+  /\ UNCHANGED <<dbf, dbfN, wal, hdrGen, idxGen, mx, bf, sz, wlock, txn, nextVer, nextGen, nextSt, up, mem, l0, rN, acked, downs, pc, cmode, ck>>
+  /\ UNCHANGED <<cvers, spv>>
+
 ---- \* history (ghost) variables and the named steps of Next
 CursorGen == IF Len(l0) = 0 THEN NoGen ELSE l0[Len(l0)].gen
 CursorEnd == IF Len(l0) = 0 THEN 0 ELSE l0[Len(l0)].off + l0[Len(l0)].n
@@ -433,6 +449,7 @@ OpenSame        == LsOpenSameObject /\ Hist("same")
 OpenNew         == LsOpenNewProcess /\ Hist("new")
 Close           == LsClose /\ Hist("ls")
 Crash           == WithCrash /\ LsCrash /\ Hist("ls")
+CtxCancel       == LsCtxCancelled /\ Hist("ls")
 
 Next ==
   \/ \E p \in Pages : AppWrite(p)
@@ -445,7 +462,7 @@ Next ==
   \/ Bump \/ Sync \/ SyncAndWait
   \/ \E m \in Modes : CkStart(m)
   \/ CkBarrier \/ CkRelease \/ CkPragma \/ CkUnbarrier \/ CkBump \/ CkFinish
-  \/ OpenSame \/ OpenNew \/ Close \/ Crash
+  \/ OpenSame \/ OpenNew \/ Close \/ Crash \/ CtxCancel
 
 Spec == Init /\ [][Next]_vars
 
